@@ -20,6 +20,7 @@ def items_for(ms):
     S = real1.render()[0] + ";"
     decoys = [
         "// " + S + "\n", "/* " + S + " */", "/*\n" + S + "\n*/", "/// " + S + "\n", "//! " + S + "\n", "/** " + S + " */",
+        "/* " + S + " // see http://x.y/z */", "/* // */", "// /* " + S + "\n", "/* /* inner */ " + S + " */",
         'debug!("x");', 'println!("x");',
         name + 'x!("x");', "x" + name + '!("x");', "my_" + name + '!("x");', name + '_!("x");',
         "foo::" + name + '!("x");', mod + "::sub::" + name + '!("x");', "x" + mod + "::" + name + '!("x");',
@@ -106,7 +107,7 @@ def run(tier, v):
     pool.close()
     v.count(agg["n"])
     v.coverage["distinct_nontrivial"] += agg["distinct"]
-    v.subspace("all sequences of 1..%d items from 23 decoys + 2 real statements x joiner {newline, blank, nothing} x tail {none, newline, "
+    v.subspace("all sequences of 1..%d items from 27 decoys + 2 real statements x joiner {newline, blank, nothing} x tail {none, newline, "
                "line comment at EOF without newline} x macro set {default, two-segment module} x style" % maxlen, agg["n"], exhaustive=True,
                sequences_containing_real_statements=agg["nonvacuous"])
     for s in agg["samples"]:
